@@ -874,4 +874,36 @@ Section FloatSlicers.
     strict_total_on (fun a => In a x) -> Permutation x x' ->
     number_plan n r im vr mnp mni x = number_plan n r im vr mnp mni x'.
   Proof. intros H HP. apply number_plan_range; [apply fmin_perm|apply fmax_perm]; assumption. Qed.
+  (* the PointsPerInterval instance is model/Intervals.v's ppi_slice (C10) with the callable reference added *)
+  Lemma ppi_slicer_ppi_slice argsort n lf mnp mni rf x :
+    ppi_slicer float float argsort n lf mnp mni ppi_bnds rf x =
+    match ppi_slice n lf mnp mni (argsort x) x with
+    | None => None
+    | Some (ms, bs) => Some (map (fun mb => mkrow (fst mb) (rf (selm (fst mb) x)) (snd mb)) (combine ms bs))
+    end.
+  Proof. unfold ppi_slicer, ppi_slice. destruct (length (argsort x) <? n)%nat; [reflexivity|].
+    destruct (filter _ (ppi_masks n lf (argsort x))) as [|m ms]; [reflexivity|].
+    cbn [map]. destruct (length (m :: ms) <? mni)%nat; reflexivity. Qed.
 End FloatSlicers.
+
+(* ------------------------------------------------------------------ ties across a chunk boundary: order matters *)
+Section Witness.
+  (* two rows with the same conditioning value 1 and dependent values 10 / 20, one point per interval:
+     the (stable) argsort leaves tied rows in input order, so interval 0 holds [10] for one order and [20] for the other *)
+  Definition w_rows : list (list nat) := [[1; 10]; [1; 20]].
+  Definition w_rows' : list (list nat) := [[1; 20]; [1; 10]].
+  Definition w_argsort (x : list nat) : list nat := seq 0 (length x).
+  Definition w_slicers : list (slicer nat nat) :=
+    [ppi_slicer nat nat w_argsort 1 true 0 0 (fun L => map (fun _ => (0, 0)) L) (fun _ => 0)].
+
+  Lemma ppi_ties_witness :
+    Permutation w_rows w_rows' /\
+    argsort_contract nat Nat.leb 0 (w_argsort (col nat 0 0 w_rows)) (col nat 0 0 w_rows) /\
+    argsort_contract nat Nat.leb 0 (w_argsort (col nat 0 0 w_rows')) (col nat 0 0 w_rows') /\
+    ~ split_equiv nat nat (split_in_intervals nat nat 0 w_slicers w_rows 1 0)
+                          (split_in_intervals nat nat 0 w_slicers w_rows' 1 0).
+  Proof.
+    split; [apply perm_swap|]. split; [split; [apply Permutation_refl|cbn; auto]|]. split; [split; [apply Permutation_refl|cbn; auto]|].
+    cbn. intros [H _]. inversion H as [|? ? ? ? H1 _]; subst. apply Permutation_length_1 in H1. discriminate.
+  Qed.
+End Witness.
